@@ -186,8 +186,10 @@ def load_known():
     return known
 
 
-def cfg(spec="Spec", constants=None, invariants=(), properties=(), constraints=(), extra=""):
+def cfg(spec="Spec", constants=None, invariants=(), properties=(), constraints=(), extra="", view=None):
     lines = ["SPECIFICATION %s" % spec, "CHECK_DEADLOCK FALSE"]
+    if view:
+        lines.append("VIEW %s" % view)
     if constants:
         lines.append("CONSTANTS")
         for k, v in constants.items():
